@@ -93,6 +93,11 @@ Inductive g_url_norm :=
 | UnAppendSlash        (* `if !u.ends_with('/') { u.push('/'); }` then `Url::parse(&u).ok()` — C17/UrlFull.v normalise_suffix *)
 | UnUnknown.           (* anything else; g_server_url_norm_text says what *)
 
+(* how the code-info redirect's Location becomes (debug file, debug id) (Gen/C17Flow.v g_redirect_parse) *)
+Inductive g_redirect_parse_kind :=
+| RpStripSlashRsplitNth1Next   (* strip one leading '/', rsplit('/'), nth(1) = id, next() = file — C17/UrlFull.v parse_location *)
+| RpUnknown.
+
 (* fn names as bytes (Gen/C17Flow.v g_flow_table is the string-free copy of g_consumer_joins the driver uses) *)
 Definition bytes_of_string (s : string) : list Z :=
   map (fun a => Z.of_N (Ascii.N_of_ascii a)) (list_ascii_of_string s).
